@@ -58,6 +58,33 @@ func c17Rewrite(c *Ctx, pp string) {
 				}
 			}
 			c.Check("C17.R8", fk+":prefix-rewrite", s.Instr.Pos(), okShape && guarded, "path = prefixRewrite + path[len(matched):] under HasPrefix(path, matched)", "prefix rewrite does not replace exactly the matched prefix of the request path with the configured prefix_rewrite")
+		} else if call, ok := val.(*ssa.Call); ok && regexHelper(call) {
+			// the regex step lives in a helper of the package that applies a Regexp.Replace* to its parameters; which
+			// variant it may use is C17.R19's business
+			regexSet = s.Instr
+			pathIn, subIn, patIn := false, false, false
+			for _, a := range call.Common().Args {
+				if a == path {
+					pathIn = true
+				}
+				if _, f, _, okf := loadedField(a); okf && f == "Substitution" {
+					subIn = true
+				}
+				if _, f, _, okf := loadedField(a); okf && f == "regexPattern" {
+					patIn = true
+				}
+			}
+			if h := call.Common().StaticCallee(); h != nil {
+				forEachInstr(h, false, func(_ *ssa.Function, in ssa.Instruction) {
+					if _, f, _, okf := loadedField(valueOf(in)); okf && f == "Substitution" {
+						subIn = true
+					}
+					if _, f, _, okf := loadedField(valueOf(in)); okf && f == "regexPattern" {
+						patIn = true
+					}
+				})
+			}
+			c.Check("C17.R8", fk+":regex-rewrite", s.Instr.Pos(), pathIn && subIn && patIn, "path = helper(regexPattern, path, Substitution)", "regex rewrite does not apply the configured pattern and substitution to the request path")
 		} else if call, ok := val.(*ssa.Call); ok && methodName(call.Common()) == "ReplaceAllString" {
 			regexSet = s.Instr
 			a := call.Common().Args
@@ -444,4 +471,47 @@ func c17RedirectPortTable(c *Ctx, pp string) {
 	}
 	sort.Strings(wrong)
 	c.Check("C17.R11", funcKey(fn)+":redirect-default-port-table", strip.Pos(), len(wrong) == 0, "the port is dropped exactly for (https, 80) and (http, 443)", "the Location of a scheme redirect handles explicit default ports wrongly ("+strings.Join(wrong, "; ")+"): `http://host:80/x` redirected to https must become `https://host/x` and `https://host:443/x` redirected to http must become `http://host/x`, every other port is kept")
+}
+
+// regexHelper: call is a call of a same-package function every return of which is the result of a (*regexp.Regexp).Replace*
+// call.
+func regexHelper(call *ssa.Call) bool {
+	h := call.Common().StaticCallee()
+	if h == nil || len(h.Blocks) == 0 || call.Parent().Pkg != h.Pkg {
+		return false
+	}
+	n := 0
+	for _, in := range instrsWhere(h, isReturn) {
+		r := in.(*ssa.Return)
+		if len(r.Results) != 1 {
+			return false
+		}
+		var leaves []ssa.Value
+		var walk func(v ssa.Value)
+		walk = func(v ssa.Value) {
+			if phi, ok := v.(*ssa.Phi); ok {
+				for _, e := range phi.Edges {
+					walk(e)
+				}
+				return
+			}
+			leaves = append(leaves, v)
+		}
+		walk(r.Results[0])
+		for _, l := range leaves {
+			c2, ok := l.(*ssa.Call)
+			if !ok || !strings.HasPrefix(calleeName(c2.Common()), "(*regexp.Regexp).Replace") {
+				return false
+			}
+			n++
+		}
+	}
+	return n > 0
+}
+
+func valueOf(in ssa.Instruction) ssa.Value {
+	if v, ok := in.(ssa.Value); ok {
+		return v
+	}
+	return nil
 }
